@@ -7,6 +7,7 @@ Event log entries (lists, in order of occurrence):
   ["consult", obj_label,   name, verdict,     value_id]
   ["tracer",  origin,      operation]
   ["sink",    classification, detail]
+  ["danger",  channel, value_kind, detail]   (value oracle, see danger_kind)
 caller_kind: "template" (code object whose file is not on disk), "sandbox"
 (jinja2/sandbox.py), "engine" (other jinja2 / markupsafe file), "harness"
 (under /verif), "other" (stdlib ...).
@@ -57,6 +58,7 @@ class Log:
         self.events = []
         self.labels = {}        # id(obj) -> label, for objects we know
         self.keep = []          # keep probes/tracers alive so ids stay unique
+        self.value_checks = 0   # values classified by the value oracle
 
     def label(self, obj):
         return self.labels.get(id(obj)) or f"<{type(obj).__name__}>"
@@ -72,6 +74,9 @@ class Log:
 
     def sink(self, cls, detail):
         self.events.append(["sink", cls, detail])
+
+    def danger(self, channel, kind, detail):
+        self.events.append(["danger", channel, kind, detail])
 
 
 TOKEN = "TRACERLEAK"
@@ -293,3 +298,76 @@ def contains_tracer(v, depth=0):
     if depth < 4 and isinstance(v, dict):
         return any(contains_tracer(x, depth + 1) for x in list(v.keys()) + list(v.values()))
     return False
+
+
+# ------------------------------------------------------------ value oracle
+# Independent of any name classification: what KIND of value is it that the
+# sandbox hands over?  Interpreter internals must never reach a template,
+# whatever attribute name the template used to ask for them.
+import builtins as _builtins
+import types as _types
+
+
+def danger_kind(v, exempt=(), depth=0):
+    """-> None, or the kind of interpreter-internal value v is (or contains,
+    for list/tuple/set values up to two levels): 'frame', 'code', 'traceback',
+    'globals-dict' (a function's __globals__ / the __builtins__ dict),
+    'module-dict' (the __dict__ of a module), 'class' (a type object, as
+    reached through __class__ / __mro__ / __bases__ / __subclasses__()).
+    Objects in `exempt` (the context values themselves) are not reported."""
+    for o in exempt:
+        if v is o:
+            return None
+    if isinstance(v, _types.FrameType):
+        return "frame"
+    if isinstance(v, _types.CodeType):
+        return "code"
+    if isinstance(v, _types.TracebackType):
+        return "traceback"
+    if isinstance(v, type):
+        return "class"
+    if type(v) is dict:
+        if v is _builtins.__dict__ or "__builtins__" in v:
+            return "globals-dict"
+        if "__name__" in v and ("__spec__" in v or "__loader__" in v):
+            return "module-dict"
+        return None
+    if depth < 2 and type(v) in (list, tuple, set, frozenset):
+        for x in v:
+            k = danger_kind(x, exempt, depth + 1)
+            if k:
+                return k
+    return None
+
+
+def install_value_hooks(env, log, exempt):
+    """Harness-side probes on the environment instance: every value returned by
+    env.getattr / env.getitem (generated code, attribute filters and the format
+    field lookups all go through them) and every value for which
+    env.is_safe_attribute answers True is classified.  Returns an uninstaller."""
+    orig_getattr, orig_getitem = env.getattr, env.getitem
+
+    def getattr_(obj, attribute):
+        rv = orig_getattr(obj, attribute)
+        log.value_checks += 1
+        k = danger_kind(rv, exempt)
+        if k:
+            log.danger("env.getattr", k, f"{type(obj).__name__}.{attribute}")
+        return rv
+
+    def getitem_(obj, argument):
+        rv = orig_getitem(obj, argument)
+        log.value_checks += 1
+        k = danger_kind(rv, exempt)
+        if k:
+            log.danger("env.getitem", k, f"{type(obj).__name__}[{argument!r}]")
+        return rv
+
+    env.getattr = getattr_
+    env.getitem = getitem_
+
+    def uninstall():
+        # instance attributes shadowing the class methods: remove them again
+        env.__dict__.pop("getattr", None)
+        env.__dict__.pop("getitem", None)
+    return uninstall
